@@ -272,7 +272,12 @@ class AbstractGrader(ObjectWithSchema):
             not work when an ItemGrader is embedded inside a ListGrader. See
             ItemGrader.__call__ for the implementation.
         """
-        student_input = self.ensure_text_inputs(student_input)
+        try:
+            student_input = self.ensure_text_inputs(student_input)
+        except ConfigError:
+            # Don't let a debug log created for this call leak into the next one
+            self.log_created = False
+            raise
 
         # Initialize the debug log
         self.create_debuglog(student_input)
